@@ -16,18 +16,6 @@ import RSV.Model.Bitfield
 namespace Drv
 open RSV RSV.Model
 
-def pt (n : Nat) : GF256 := GF256.ofNat n
-
-/-- L0 closed form of the default generator: Lagrange basis over nodes `0..d-1` at `d+r` -/
-def lagrangeParity (d p : Nat) : Mat GF256 p d :=
-  -- 1 / ∏_{j≠c} (y_c - y_j), once per column
-  let invDen : Array GF256 := Array.ofFn fun c : Fin d =>
-    ((List.range d).foldl (fun acc j => if j = c.val then acc else acc * (pt c.val - pt j)) 1)⁻¹
-  Mat.ofFn fun r c =>
-    let xr := pt (d + r.val)
-    let num := (List.range d).foldl (fun acc j => if j = c.val then acc else acc * (xr - pt j)) 1
-    num * invDen[c.val]!
-
 /-- `certGC` on the natural points with the scalars read off the first row and column,
 memoised in arrays (`certGC_sound'` holds for any `u, v`; distinctness of the natural points
 is `GF256.ofNat_injOn`) -/
